@@ -966,7 +966,7 @@ def run_thorough(chk):
 META = {
     "category": "other",
     "engine": "FS",
-    "technique": "static key-set/version agreement between dump and load chains + exhaustive abstract interpretation of the dump protocol's file-system effects over abstract directory states",
+    "technique": "abstract interpretation: writer run followed by the reader on the writer's archive (chains and trees), site accessors of two live objects over a model file system, TdMpsJob.evolve with recorders; exhaustive abstract interpretation of the dump protocol's file-system effects over abstract directory states",
     "text": "Structural clauses of C14 decided on the source: (a) every key/version a state class writes is what its loader accepts and "
             "reads, wired to the same attribute, and all state-defining attributes round-trip; (b) TdMpsJob.dump_dict is reduced to its "
             "file-system effects and interpreted from every abstract directory state reachable by crashing (also inside the writer, also "
@@ -975,5 +975,5 @@ META = {
             ' Values read back from the archive pass only through value-preserving conversions; the disk spill of large site tensors uses one file per (object, site), read back with the same dtype and quantum numbers.',
     "note": "Assumes rename/replace/remove are atomic, savez is not; models a path as absent/partial/complete. Unknown os/shutil calls or "
             "effects inside loops stop the analysis with exit 2 instead of a verdict.",
-    "design_ref": "DESIGN.md 3.8, 4 (C14)",
+    "design_ref": "DESIGN.md 3.8, 4 (C14); as built: 9.1, 9.3, 9.8",
 }
